@@ -49,6 +49,14 @@ func main() {
 	r.Assume("history subsumption: a successor is not expanded when a known state has the same table and a stored-location history that is a SUBSET of the successor's: the oracle uses the history only positively ('was stored for k'), the implementation behaves identically, and subset is preserved by every operation, so every violation reachable from the dropped state is reachable (same operations) from the kept one. Violations themselves are always judged with the exact history of the actual path.")
 	r.Assume("volatile block list variant: epoch hash seeds come from the repository's CryptoThreadSafeGenerator; they are never observable except through a 2^-64 checksum collision, so the run is deterministic in everything that is compared")
 
+	missingFamily = func(name string) {
+		if name == famGetTooMany {
+			return
+		}
+		r.NewSub("metrics", "vstate", "the discard metrics exist once a map has been constructed")
+		r.Violate(ev.Violation{Signature: "metrics:discard-metric-not-instantiated", Sub: "metrics", Message: fmt.Sprintf("constructing a hashingKeyLocationMap did not instantiate %s for its storage type: a discard of that kind cannot be reported through the index's metrics", name), Case: map[string]string{"metric": name}})
+		r.Finish()
+	}
 	initCollectors()
 
 	if r.Replay != "" {
@@ -271,6 +279,13 @@ func main() {
 			break
 		}
 		r.Sample(globalSamples[oc])
+	}
+	for _, b := range backends {
+		d := ev.Pick(r, 6, 7)
+		if b == "dev-harness" || b == "dev-volatile" {
+			d-- // the fault variants double the alphabet
+		}
+		seqSearch(r, b, choices[kcKey{3, 3, 1}], 3, d)
 	}
 	r.Finish()
 }
